@@ -215,8 +215,13 @@ pub fn judge_with_cursors(model: &Model, scn: &ReadScn, log: &RunLog, o: &JudgeO
 
         for (rule, detail) in &step.mon {
             if o.mon_prefixes.iter().any(|pre| rule.starts_with(pre)) {
-                // monitor rules carry their own property prefix
-                viol(&format!("@{}", rule), format!("{}: {}", at, detail));
+                // monitor rules carry their own property prefix; under another property's check
+                // they are reported in that property's name space
+                if rule.starts_with(p) {
+                    viol(&format!("@{}", rule), format!("{}: {}", at, detail));
+                } else {
+                    viol(&format!("@{}.{}", p, rule.replace('.', "_")), format!("{}: {}", at, detail));
+                }
             }
         }
         if !step.slots_changed.is_empty() {
